@@ -759,6 +759,38 @@ func TestC06(t *testing.T) {
 			}
 		}
 	}
+	// a profile among bulky neighbours: 1.3 MiB (thorough 20 MiB) of full-size APP1/COM segments before, between and
+	// after the chunks of a small profile, frame header last - extended XMP, depth maps and thumbnails are that big
+	for _, total := range []int{1300 << 10, ev.Pick(2<<20+77, 20<<20)} {
+		prof := mk(3001, false)
+		ics := build.ICCSegs(prof, []int{1000, 1000})
+		var segs []build.Seg
+		bulk := func(n int) {
+			for n > 0 {
+				k := 65533
+				if k > n {
+					k = n
+				}
+				segs = append(segs, build.Seg{Marker: []byte{0xE1, 0xFE, 0xED}[len(segs)%3], Data: make([]byte, k)})
+				n -= k
+			}
+		}
+		bulk(total / 3)
+		segs = append(segs, ics[0])
+		bulk(total / 3)
+		segs = append(segs, ics[1:]...)
+		bulk(total / 3)
+		segs = append(segs, build.Seg{Marker: 0xC0, Data: build.SOF(8, 5, 7, [][3]byte{{1, 0x11, 0}})})
+		c := Case{Format: "JPEG", W: 7, H: 5, Bits: 8, Class: "intact", Expect: Expect{Kind: "profile", Profile: prof}}
+		c.Data, _ = build.JPEG{Segs: segs, SOS: []byte{1, 1, 0, 0, 63, 0}, Entropy: []byte{1}}.Bytes()
+		c.Desc = fmt.Sprintf("JPEG with a 3001-byte profile in 3 chunks among %d bytes of other segments, frame header last", total)
+		ev.Eval(1)
+		ev.NT(ev.Hash("bulky", total))
+		if k, w := check(c); k != "" {
+			c.Data = nil
+			ev.Violation("icc", k, w, c)
+		}
+	}
 	// the 2^24 boundary of a chunk length (three length bytes are not four): WebP in every tier, where it costs little
 	for _, n := range []int{1<<24 - 1, 1 << 24, 1<<24 + 4001} {
 		c := bigCase("WebP", mk(n, false), 1)
